@@ -44,6 +44,13 @@ func (rt *Transfer) deleteFiles(fileList []*File) error {
 			if findInFileList(fileList, path) {
 				return nil
 			}
+			if rt.Protect != nil && rt.Protect(path) {
+				// excluded entries are not part of the transfer, deletion included
+				if info.IsDir() {
+					return fs.SkipDir
+				}
+				return nil
+			}
 			if rt.Opts.Verbose {
 				rt.Logger.Printf("  deleting %s", path)
 			}
